@@ -15,31 +15,31 @@ EqF(d, l, r, f) == [desc |-> d, lhs |-> l, rhs |-> r, hasSteady |-> FALSE, slhs 
 
 \* the flag decides the constant of the y equation (rendered through !if when factored)
 ModelA(flag) == [
-    tv |-> << <<"x", "Output">>, <<"k", "Capital">>, <<"y", "">>, <<"ca", "">>, <<"cb", "">> >>,
+    tv |-> << <<"x_n", "Output">>, <<"k", "Capital">>, <<"y", "">>, <<"ca", "">>, <<"cb", "">> >>,
     sh |-> << <<"e", "">> >>, pa |-> << <<"a", "">>, <<"b", "Slope">> >>, mv |-> << <<"o", "Observed">> >>,
     logs |-> {"k", "y", "ca", "cb", "o"}, flag |-> flag,
-    teq |-> << [EqF("Eq one", V("x", 0), <<"add", <<"mul", P("a"), V("x", CNeg1)>>, V("e", 0)>>, "subst") EXCEPT
-                    !.hasSteady = TRUE, !.slhs = V("x", 0), !.srhs = N(1)],
-               Eqn("", V("k", 0), <<"sub", <<"add", <<"add", Mac("diff_log", V("y", 0), Dflt), Mac("mov_avg", V("x", 1), CNeg2)>>,
+    teq |-> << [EqF("Eq one", V("x_n", 0), <<"add", <<"mul", P("a"), V("x_n", CNeg1)>>, V("e", 0)>>, "subst") EXCEPT
+                    !.hasSteady = TRUE, !.slhs = V("x_n", 0), !.srhs = N(1)],
+               Eqn("", V("k", 0), <<"sub", <<"add", <<"add", Mac("diff_log", V("y", 0), Dflt), Mac("mov_avg", V("x_n", 1), CNeg2)>>,
                                                   <<"pow", V("y", 0), N(2)>> >>, <<"pow", P("b"), N(2)>> >>, <<>>, <<>>),
                EqF("Third", V("y", 0), <<"add", Mac("pct", V("k", 0), CNeg2), IF flag THEN N(1) ELSE N(2)>>, "if"),
-               EqF("", V("ca", 0), <<"add", <<"mul", P("a"), V("x", 0)>>, N(1)>>, "for"),
-               EqF("", V("cb", 0), <<"add", <<"mul", P("b"), V("x", 0)>>, N(1)>>, "for") >>,
-    meq |-> << Eqn("", V("o", 0), <<"add", V("x", 0), V("k", 1)>>, <<>>, <<>>) >> ]
+               EqF("", V("ca", 0), <<"add", <<"mul", P("a"), V("x_n", 0)>>, N(1)>>, "for"),
+               EqF("", V("cb", 0), <<"add", <<"mul", P("b"), V("x_n", 0)>>, N(1)>>, "for") >>,
+    meq |-> << Eqn("", V("o", 0), <<"add", V("x_n", 0), V("k", 1)>>, <<>>, <<>>) >> ]
 ModelB == [
-    tv |-> << <<"x", "">>, <<"k", "">>, <<"y", "Why">>, <<"ca", "">>, <<"cb", "">> >>,
+    tv |-> << <<"x_n", "">>, <<"k", "">>, <<"y", "Why">>, <<"ca", "">>, <<"cb", "">> >>,
     sh |-> << <<"e", "Shock">> >>, pa |-> << <<"a", "">>, <<"b", "">> >>, mv |-> << <<"o", "">> >>,
     logs |-> {"y"}, flag |-> TRUE,
-    teq |-> << EqF("", V("x", 0), <<"add", <<"mul", P("a"), V("x", CNeg1)>>, V("e", 0)>>, "subst"),
-               Eqn("Macros", V("k", 0), <<"add", <<"add", Mac("shift", V("x", 0), CNeg2), Mac("diff", V("x", 0), Dflt)>>,
+    teq |-> << EqF("", V("x_n", 0), <<"add", <<"mul", P("a"), V("x_n", CNeg1)>>, V("e", 0)>>, "subst"),
+               Eqn("Macros", V("k", 0), <<"add", <<"add", Mac("shift", V("x_n", 0), CNeg2), Mac("diff", V("x_n", 0), Dflt)>>,
                                                <<"add", Mac("roc", V("y", 0), CNeg1), Mac("mov_sum", V("k", CNeg1), Dflt)>> >>, <<>>, <<>>),
-               EqF("", V("y", 0), <<"add", <<"add", Mac("mov_prod", V("y", CNeg1), 2), Mac("mov_avg", V("x", 0), 3)>>,
-                                        <<"add", Mac("diff", <<"fn", "log", V("x", 0)>>, CNeg1), N(1)>> >>, "if"),
-               EqF("", V("ca", 0), <<"add", <<"mul", P("a"), V("x", 0)>>, N(1)>>, "for"),
-               EqF("", V("cb", 0), <<"add", <<"mul", P("b"), V("x", 0)>>, N(1)>>, "for") >>,
-    meq |-> << Eqn("Meas", V("o", 0), <<"mul", V("y", 0), Mac("roc", V("x", 0), Dflt)>>, <<>>, <<>>) >> ]
+               EqF("", V("y", 0), <<"add", <<"add", Mac("mov_prod", V("y", CNeg1), 2), Mac("mov_avg", V("x_n", 0), 3)>>,
+                                        <<"add", Mac("diff", <<"fn", "log", V("x_n", 0)>>, CNeg1), N(1)>> >>, "if"),
+               EqF("", V("ca", 0), <<"add", <<"mul", P("a"), V("x_n", 0)>>, N(1)>>, "for"),
+               EqF("", V("cb", 0), <<"add", <<"mul", P("b"), V("x_n", 0)>>, N(1)>>, "for") >>,
+    meq |-> << Eqn("Meas", V("o", 0), <<"mul", V("y", 0), Mac("roc", V("x_n", 0), Dflt)>>, <<>>, <<>>) >> ]
 \* every loggable variable is a log-variable: rendered as !all-but with an empty list
-ModelC == [ModelB EXCEPT !.logs = {"x", "k", "y", "ca", "cb", "o"}]
+ModelC == [ModelB EXCEPT !.logs = {"x_n", "k", "y", "ca", "cb", "o"}]
 Models == [A1 |-> ModelA(TRUE), A2 |-> ModelA(FALSE), B |-> ModelB, C |-> ModelC]
 
 Choices == [kw : {"under", "hyphen", "short"}, br : {"curly", "square"}, plus : BOOLEAN, eq : {"plain", "colon"}, pw : {"caret", "stars"},
@@ -77,17 +77,17 @@ LogLines(m, ch) == LET loggable == [i \in 1..(Len(m.tv) + Len(m.mv)) |-> IF i <=
                    \o NameLines([i \in 1..Len(sel) |-> <<sel[i], "">>], [ch EXCEPT !.sep = IF ch.sep = "nl" THEN "nl" ELSE ch.sep])
 \* one equation; decorations: description, steady variant, continuation line, comment
 EqText(q, ch) == TText(q.lhs, ch) \o ch.sp \o EqSign(ch) \o ch.sp \o TText(q.rhs, ch)
-                 \o (IF q.hasSteady THEN " !! " \o TText(q.slhs, ch) \o EqSign(ch) \o TText(q.srhs, ch) ELSE "")
+                 \o (IF q.hasSteady THEN " !!" \o ch.sp \o TText(q.slhs, ch) \o EqSign(ch) \o TText(q.srhs, ch) ELSE "")
 EqLines(q, ch, i) ==
     IF q.fac = "subst" /\ UseSubst(ch)
     THEN << "    " \o Quote(q.desc) \o TText(q.lhs, ch) \o EqSign(ch) \o "($s$" \o "+" \o TText(q.rhs[3], ch) \o ")"
-            \o (IF q.hasSteady THEN " !! " \o TText(q.slhs, ch) \o EqSign(ch) \o TText(q.srhs, ch) ELSE "") \o ";" \o Cmt(ch, i) >>
+            \o (IF q.hasSteady THEN " !!" \o ch.sp \o TText(q.slhs, ch) \o EqSign(ch) \o TText(q.srhs, ch) ELSE "") \o ";" \o Cmt(ch, i) >>
     ELSE IF q.fac = "if" /\ UseIf(ch)
     THEN << "    " \o Quote(q.desc) \o TText(q.lhs, ch) \o EqSign(ch) \o "(" \o TText(q.rhs[2], ch) \o "+",
             "        !if flag !then " \o TText(IF q.rhs[3] = N(2) THEN N(1) ELSE q.rhs[3], ch) \o " !else " \o (IF q.rhs[3] = N(2) THEN "2" ELSE "7") \o " !end );" >>
     ELSE IF ch.cm = 2
     THEN << "    " \o Quote(q.desc) \o TText(q.lhs, ch) \o " ...", "        " \o EqSign(ch) \o " " \o TText(q.rhs, ch) \o " ... continued",
-            "        " \o (IF q.hasSteady THEN "!! " \o TText(q.slhs, ch) \o EqSign(ch) \o TText(q.srhs, ch) ELSE "") \o ";" >>
+            "        " \o (IF q.hasSteady THEN "!!" \o ch.sp \o TText(q.slhs, ch) \o EqSign(ch) \o TText(q.srhs, ch) ELSE "") \o ";" >>
     ELSE << "    " \o Quote(q.desc) \o EqText(q, ch) \o ";" \o Cmt(ch, i) >>
 RECURSIVE EqBlock(_, _, _)
 EqBlock(qs, ch, i) ==
@@ -95,19 +95,21 @@ EqBlock(qs, ch, i) ==
     ELSE IF qs[i].fac = "for" /\ UseFor(ch)
     THEN (IF i + 1 <= Len(qs) /\ qs[i + 1].fac = "for"        \* the two instances of the template are written once
           THEN (IF ch.fac = "forctx"
-                THEN << "    !for ?w = <names> !do", "        c?w" \o EqSign(ch) \o "((?w*x)+1);", "    !end" >>
-                ELSE << "    !for ? = a, b !do", "        c?" \o ch.sp \o EqSign(ch) \o "((?*x)+1);", "    !end" >>)
+                THEN << "    !for ?w = <names> !do", "        c?w" \o EqSign(ch) \o "((?w*x_n)+1);", "    !end" >>
+                ELSE << "    !for ? = a, b !do", "        c?" \o ch.sp \o EqSign(ch) \o "((?*x_n)+1);", "    !end" >>)
                \o EqBlock(qs, ch, i + 2)
           ELSE EqBlock(qs, ch, i + 1))
     ELSE EqLines(qs[i], ch, i) \o EqBlock(qs, ch, i + 1)
 Render(m, ch) ==
-       (IF ch.cm = 2 THEN << "%{ a block comment", "   !variables zz  x = 1;", "%}" >> ELSE <<>>)
+       (IF ch.cm = 2 THEN << "%{ a block comment #{ wrapping one of the other style #}", "   !variables zz  x_n = 1;", "%}" >> ELSE <<>>)
     \o << Kw("transition_variables", ch) \o Cmt(ch, 1) >> \o TvLines(m, ch)
     \o LogLines(m, ch)
     \o << Kw("transition_shocks", ch) >> \o NameLines(m.sh, ch)
     \o << Kw("parameters", ch) >> \o NameLines(m.pa, ch)
     \o (IF UseSubst(ch) THEN << Kw("substitutions", ch), "    s " \o EqSign(ch) \o " " \o TText(m.teq[1].rhs[2], ch) \o ";" >> ELSE <<>>)
-    \o << Kw("transition_equations", ch) >> \o EqBlock(m.teq, ch, 1)
+    \o << Kw("transition_equations", ch) >>
+    \o (IF ch.cm = 2 THEN << "#{ disabled: %{ an older remark %}", "    x_n = 0.5*k + 1;", "#}" >> ELSE <<>>)
+    \o EqBlock(m.teq, ch, 1)
     \o << Kw("measurement_variables", ch) >> \o NameLines(m.mv, ch)
     \o << Kw("measurement_equations", ch) >> \o EqBlock(m.meq, ch, 1)
 
